@@ -874,6 +874,11 @@ func ComparisonExpr(query *Query, current Map, expr *sqlparser.ComparisonExpr, o
 				switch value := value.(type) {
 				case Map:
 					{
+						// the row of a subquery: IN compares with its column. With several
+						// columns there is no telling which (a map has no first entry)
+						if len(value) != 1 {
+							return false, EXPECTATION_FAILED.Extend(fmt.Sprintf("failed to build `IN` expression. the subquery returns %d columns, expected 1", len(value)))
+						}
 						for _, value := range value {
 							if v, ok := value.(*float64); ok {
 								value = *v
